@@ -7,10 +7,10 @@ cd $W || exit 2
 : > $OUT
 git -C $W diff --quiet -- . ':!_seed' && { echo "patch not applied in worktree" >> $OUT; git -C $W apply $S/patch.diff || exit 2; }
 echo "== demo WITH the change" >> $OUT
-( cd $S && timeout 1500 bash ./demo.sh ) > $S/demo_with.log 2>&1; RW=$?; echo "exit=$RW" >> $OUT; tail -3 $S/demo_with.log >> $OUT
+( cd $S && timeout 1500 bash ./$( [ -f demo.sh ] && echo demo.sh || echo run_demo.sh ) ) > $S/demo_with.log 2>&1; RW=$?; echo "exit=$RW" >> $OUT; tail -3 $S/demo_with.log >> $OUT
 git -C $W apply -R $S/patch.diff || { echo "cannot revert" >> $OUT; exit 2; }
 echo "== demo WITHOUT the change" >> $OUT
-( cd $S && timeout 1500 bash ./demo.sh ) > $S/demo_without.log 2>&1; RO=$?; echo "exit=$RO" >> $OUT; tail -3 $S/demo_without.log >> $OUT
+( cd $S && timeout 1500 bash ./$( [ -f demo.sh ] && echo demo.sh || echo run_demo.sh ) ) > $S/demo_without.log 2>&1; RO=$?; echo "exit=$RO" >> $OUT; tail -3 $S/demo_without.log >> $OUT
 git -C $W apply $S/patch.diff
 echo "== repository test suite WITH the change" >> $OUT
 cmake -G Ninja -S $W -B $W/_b -DCMAKE_BUILD_TYPE=RelWithDebInfo > $S/build.log 2>&1 && cmake --build $W/_b -j8 >> $S/build.log 2>&1
